@@ -16,6 +16,7 @@ import UpdaterModel.Driver.Judge
 import UpdaterModel.Driver.CodecDriver
 import UpdaterModel.Driver.AbiDump
 import UpdaterModel.Model.Interleave
+import UpdaterModel.Model.Crash
 
 open Updater Updater.Proto
 
@@ -259,12 +260,120 @@ partial def loop (h : IO.FS.Stream) (b : Block) (st : Stats) : IO Stats := do
     loop h {} st
   | _ => loop h { b with bad := some s!"unknown line {line.trimAscii.toString}" } st
 
+
+/-! ### `model crash`: process-death experiments (C04) -/
+
+structure KBlock where
+  id : String := "?"
+  plat : String := "linux"
+  arch : String := "x86_64"
+  libs : List (String × Bytes) := []
+  vtab : List ((String × String × String) × Bool) := []
+  pre : Option (List String) := none
+  ops : Array (List String) := #[]
+  xs : Array String := #[]
+
+def renderFiles (p : StateFiles) : String :=
+  let o : Obs := { ret := .unit, net := [], sj := p.1, pj := p.2, pd := none }
+  let parts := (renderObs o).splitOn " "
+  " ".intercalate (parts.filter fun t => t.startsWith "sj" || t.startsWith "pj")
+
+def sameFiles (a b : StateFiles) : Bool :=
+  let oa : Obs := { ret := .unit, net := [], sj := a.1, pj := a.2, pd := none }
+  let ob : Obs := { ret := .unit, net := [], sj := b.1, pj := b.2, pd := none }
+  (diffFields oa ob).all fun f => !(f == "sj" || f == "sje" || f == "pj")
+
+def words (s : String) : List String := (s.trimAscii.toString.splitOn " ").filter (· ≠ "")
+
+def processK (b : KBlock) : IO (Nat × Nat × Nat) := do   -- (experiments, diffs, judge failures)
+  let env : Env := { verify := fun k m s => (b.vtab.lookup (k, m, s)).getD false, platform := b.plat, arch := b.arch }
+  match b.pre.bind parseObs, b.ops.toList with
+  | some pre, [initParts, opParts] =>
+    match parseOp initParts #[] #[], parseOp opParts #[] #[] with
+    | some (.init p), some op =>
+      let w0 : World := { disk := diskOfObs pre, config := none, libs := b.libs }
+      let cfg? := mkConfig p
+      let pairs := match cfg? with
+        | some cfg => (pre.sj, pre.pj) :: segCrashPairs (launchSegs env cfg w0 p op)
+        | none => [(pre.sj, pre.pj)]
+      let preV := Judge.viewOfObs pre
+      let settledPre := match cfg? with | some c => preV.release == some c.version | none => true
+      let offer : Option Nat := match op with | .update _ _ => op.offer.map (·.number) | _ => none
+      let mut n := 0
+      let mut diffs := 0
+      let mut jf := 0
+      for x in b.xs do
+        n := n + 1
+        let parts := x.splitOn " | "
+        match parts with
+        | [hd, crashS, _rinit, _afterInit, afterNext] =>
+          match parseObs (words crashS), parseObs (words afterNext) with
+          | some xo, some ro =>
+            -- (1) the state files at death are among the model's crash states
+            if !(pairs.any fun q => sameFiles q (xo.sj, xo.pj)) then
+              IO.println s!"XDIFF {b.id} {hd} state files at death are not a crash state of the model | I {renderFiles (xo.sj, xo.pj)} | M {" ; ".intercalate (pairs.map renderFiles)}"
+              diffs := diffs + 1
+            -- (2) what the next launch selects
+            let sel : Option Nat := match ro.ret with | .num k => if k = 0 then none else some k | _ => none
+            let key := cfg?.bind (·.key)
+            match firstFail (crashChecks env key preV (Judge.viewOfObs xo) offer settledPre (Judge.viewOfObs ro) sel) with
+            | some why =>
+              IO.println s!"J C04 {b.id} step=0 side=impl {hd} {why}"
+              jf := jf + 1
+            | none => pure ()
+          | _, _ =>
+            IO.println s!"XBAD {b.id} {hd} unparsable observation"
+            diffs := diffs + 1
+        | hd :: rest =>
+          -- abnormal termination of the interrupted process or a failed recovery: a C04 violation by itself
+          IO.println s!"J C04 {b.id} step=0 side=impl {hd} C04: {" | ".intercalate rest}"
+          jf := jf + 1
+        | [] => pure ()
+      if diffs == 0 && jf == 0 then IO.println s!"KOK {b.id} experiments={n} model-crash-states={pairs.length}"
+      return (n, diffs, jf)
+    | _, _ =>
+      IO.println s!"XBAD {b.id} unparsable ops"
+      return (0, 1, 0)
+  | _, _ =>
+    IO.println s!"XBAD {b.id} malformed block"
+    return (0, 1, 0)
+
+partial def loopK (h : IO.FS.Stream) (b : KBlock) (acc : Nat × Nat × Nat × Nat) : IO (Nat × Nat × Nat × Nat) := do
+  let line ← h.getLine
+  if line.isEmpty then return acc
+  let t := line.trimAscii.toString
+  let parts := words t
+  match parts with
+  | [] => loopK h b acc
+  | "K" :: id :: rest =>
+    let f := fields rest
+    loopK h { id := id, plat := (f.lookup "plat" >>= decTok).getD "linux", arch := (f.lookup "arch" >>= decTok).getD "x86_64" } acc
+  | ["L", name, hx] =>
+    match decTok name, decHex hx with
+    | some n, some bs => loopK h { b with libs := (n, bs) :: b.libs } acc
+    | _, _ => loopK h b acc
+  | ["V", k, m, s, v] =>
+    match decTok k, decTok m, decTok s with
+    | some k, some m, some s => loopK h { b with vtab := ((k, m, s), v == "1") :: b.vtab } acc
+    | _, _, _ => loopK h b acc
+  | "P" :: rest => loopK h { b with pre := some rest } acc
+  | "O" :: rest => loopK h { b with ops := b.ops.push rest } acc
+  | "X" :: _ => loopK h { b with xs := b.xs.push (t.drop 2).toString } acc
+  | ["E"] =>
+    let (n, d, j) ← processK b
+    loopK h {} (acc.1 + 1, acc.2.1 + n, acc.2.2.1 + d, acc.2.2.2 + j)
+  | _ => loopK h b acc
+
 def main (args : List String) : IO UInt32 := do
   let stdin ← IO.getStdin
   match args with
   | ["replay"] =>
     let st ← loop stdin {} {}
     IO.println s!"STATS hists={st.hists} steps={st.steps} diffs={st.diffs} bads={st.bads} jfails={st.jfails}"
+    return 0
+  | ["crash"] =>
+    let (k, n, d, j) ← loopK stdin {} (0, 0, 0, 0)
+    IO.println s!"STATS hists={k} steps={n} diffs={d} bads=0 jfails={j}"
     return 0
   | ["codec"] => CodecDriver.main stdin
   | ["abi"] => AbiDump.main
